@@ -173,6 +173,52 @@ pub fn run(ctx: &Ctx) {
             exec_both(ctx, &format!("exec/{i}/0/far"), ops, ops.len() + 7, &[]);
         }
     }
+    // deterministic pseudo-random longer programs (4..=12 ops) over the same palette plus pushes with every byte value in the immediate
+    let count = if ctx.thorough { 120_000u64 } else { 15_000 };
+    for seed in 1..=count {
+        let id = format!("exec-random/{seed}");
+        if !ctx.want(&id) {
+            continue;
+        }
+        let mut s = seed.wrapping_mul(0x9E3779B97F4A7C15) | 1;
+        let mut next = || { s ^= s << 13; s ^= s >> 7; s ^= s << 17; s };
+        let len = 4 + (next() % 9) as usize;
+        let raw: Vec<u64> = (0..len).map(|_| next()).collect();
+        let pick = |r: u64, big: bool| -> asm::Op {
+            if r % 5 == 0 { p(((r >> 8) % 7) as i64 - 3) } else if big && r % 11 == 0 { p((r >> 3) as i64) } else { palette[(r >> 16) as usize % palette.len()] }
+        };
+        // programs that contain a Compute keep every pushed word small: a large breadth forks astronomically many children (known finding, C05)
+        let has_compute = raw.iter().any(|r| matches!(pick(*r, false), asm::Op::Compute(Compute::Compute)));
+        let ops: Vec<asm::Op> = raw.iter().map(|r| pick(*r, !has_compute)).collect();
+        exec_both(ctx, &id, &ops, 0, &[1, 2]);
+    }
+    // more operations / bytes than fit in a u8 or u16 index
+    for (name, ops) in [
+        ("300-pushes", (0..300).map(|i| p(i * 0x0101_0101)).collect::<Vec<_>>()),
+        ("70000-pops", vec![asm::Op::from(S::Pop); 70_000]),
+        ("push-after-65600-pops", { let mut v = vec![asm::Op::from(S::Pop); 65_600]; v.push(p(0x0102030405060708)); v.push(S::Pop.into()); v }),
+    ] {
+        let id = format!("big/{name}");
+        if !ctx.want(&id) {
+            continue;
+        }
+        let r = std::panic::catch_unwind(|| {
+            let bytes: Vec<u8> = asm::to_bytes(ops.iter().copied()).collect();
+            let m = BytecodeMapped::<asm::Op, &[u8]>::try_from(&bytes[..]).ok()?;
+            let n = ops.len();
+            let ok = m.op_indices().len() == n
+                && [0usize, 1, 254, 255, 256, n / 2, n - 2, n - 1].iter().all(|&i| i >= n || m.op(i) == Some(ops[i]))
+                && m.op(n).is_none()
+                && m.ops().count() == n
+                && m.ops().last() == ops.last().copied();
+            let rebuilt: BytecodeMapped<asm::Op, Vec<u8>> = ops.iter().copied().collect();
+            Some(ok && rebuilt.bytecode() == &bytes[..])
+        });
+        match r {
+            Ok(Some(true)) => ctx.pass(),
+            other => ctx.fail(&id, "mapped bytecode == parsed operation list for programs with more than 255 / 65535 operations or bytes", format!("{name}: {:?}", other)),
+        }
+    }
     // a few hand-written longer programs: forward jump past the end, repeat loop ending in Push, compute children running to the end
     let longer: Vec<Vec<asm::Op>> = vec![
         vec![p(5), p(1), T::JumpIf.into(), p(7)],
